@@ -85,7 +85,7 @@ def main():
         "hooks": {
             "guard": "raindb_verif",
             "enable": "none needed: the analysis reads rustc MIR of the unmodified crate (no hooks, no instrumentation)",
-            "baseline_off_cmd": "cd /repo && cargo test --workspace --no-fail-fast --offline",
+            "baseline_off_cmd": "cd /repo && (cargo nextest run --workspace --no-fail-fast --test-threads 8 --offline || cargo test --workspace --no-fail-fast --offline -- --test-threads 1)",
             "source_commits": [],
             "add_only": True,
         },
